@@ -237,6 +237,19 @@ class Ctx:
         os.makedirs(os.path.join(VERIF, "evidence"), exist_ok=True)
         with open(os.path.join(VERIF, "evidence", self.prop + ".json"), "w") as f:
             json.dump(ev, f, indent=1, default=str)
+        concrete = [v["replay"] for v in self.violations if not v["no_input"]]
+        for v in self.violations:
+            if v["no_input"] and concrete:
+                # the broken proof obligation comes with failing inputs found by the same run: name them in its replay
+                try:
+                    with open(v["replay"]) as fh:
+                        r = json.load(fh)
+                    r["failing_inputs_found_in"] = concrete
+                    with open(v["replay"], "w") as fh:
+                        json.dump(r, fh, indent=1, default=str)
+                    v["no_input"] = False
+                except OSError:
+                    pass
         for v in self.violations:
             print("%s: %s" % (v["key"], v["what"]))
             print("VIOLATION property=%s replay=%s%s" % (self.prop, v["replay"],
